@@ -163,6 +163,8 @@ fn do_request(pm: &ProjectManager, kind: &str, f: &MFile, limit: Duration) -> Ou
             let mut pos: Vec<(usize, usize)> = Vec::new();
             pos.extend(f.class_pos.iter());
             pos.extend(f.member_pos.iter().map(|m| m.1));
+            // names of entities that have no file: in the uses line and as the type of a local
+            pos.extend(f.probes.iter().filter(|p| p.0.starts_with("uses-ghost") || p.0.starts_with("ghost-type")).map(|p| p.1));
             for (l, c) in pos {
                 if let Ok(items) = pm.prepare_type_hierarchy(&f.uri, &Position::new(l, c)) {
                     for it in items {
